@@ -628,7 +628,13 @@ impl Rasn {
             | ASN1Type::ObjectClassField(_)
             | ASN1Type::EmbeddedPdv
             | ASN1Type::External => (vec![], quote!(Any)),
-            ASN1Type::ChoiceSelectionType(_) => unreachable!(),
+            ASN1Type::ChoiceSelectionType(_) => {
+                return Err(GeneratorError::new(
+                    None,
+                    "Choice selection type should have been resolved at this point!",
+                    GeneratorErrorType::Asn1TypeMismatch,
+                ))
+            }
         })
     }
 
